@@ -2415,6 +2415,22 @@ def generate(prop, run_seed, tier='quick', tolerate=frozenset()):
                     if script:
                         scripts[f'proc:{pi}:{cnt}'] = script
         sh.apply(op)
+    if prop == 'C02' and crng.random() < .08:
+        # a component that listens to on_add only is attached and detached
+        # while dispatching is disabled, and the program forgets it: the
+        # postponed on_add is owed all the same
+        cands = [i for i, c in enumerate(cfg['insts'])
+                 if 'on_add' in (cfg['classes'][c].get('deco') or {}).get(
+                     'names', [])
+                 and 'on_remove' not in cfg['classes'][c]['deco']['names']
+                 and not cfg['classes'][c].get('bases')]
+        if cands:
+            i = crng.choice(cands)
+            e = crng.choice(cfg['ids'])
+            k = crng.randint(0, len(ops))
+            ops[k:k] = [['disable'], ['add', e, i],
+                        ['remove', e, cfg['insts'][i]], ['forget', i],
+                        ['enable']]
     if prop == 'C05' and crng.random() < (.02 if tier == 'thorough'
                                           else .003):
         ops.insert(crng.randint(0, len(ops)),
